@@ -2,6 +2,8 @@ import HcipyVerif.Model.Layer
 import HcipyVerif.Lemmas.Shift
 import Mathlib.Tactic.Ring
 import Mathlib.Tactic.Linarith
+import Mathlib.Tactic.LinearCombination
+import Mathlib.Algebra.Order.Field.Basic
 import Mathlib.Algebra.Order.Field.Rat
 import Mathlib.Algebra.Order.Floor.Ring
 import Mathlib.Data.Rat.Floor
@@ -132,6 +134,19 @@ theorem roundHalfEven_int (n : Int) : roundHalfEven (n : Rat) = n := by
 
 theorem pixel_whole (a : Int) (δ : Rat) (hδ : δ ≠ 0) : pixel (a * δ) δ = a := by
   simp [pixel, mul_div_assoc, div_self hδ, roundHalfEven_int]
+
+
+theorem sideX_off (d : Int) : (d.natAbs : Int) * (sideX d).off.1 = d ∧ (d.natAbs : Int) * (sideX d).off.2 = 0 := by
+  unfold sideX; split <;> simp only [Where.off] <;> omega
+
+theorem sideY_off (d : Int) : (d.natAbs : Int) * (sideY d).off.1 = 0 ∧ (d.natAbs : Int) * (sideY d).off.2 = d := by
+  unfold sideY; split <;> simp only [Where.off] <;> omega
+
+
+theorem dot_scale {K : Type} [CommRing K] (k : K) : ∀ (A st : List K), dot A (st.map (k * ·)) = k * dot A st
+  | [], _ => by simp [dot]
+  | _ :: _, [] => by simp [dot]
+  | a :: A, b :: st => by simp [dot, dot_scale k A st]; ring
 
 
 end HcipyVerif.Layer
